@@ -167,6 +167,17 @@ pub proof fn lemma_nl_mono(s: SrcText, a: int, b: int)
     if a < b { lemma_nl_mono(s, a, b - 1); }
 }
 
+// a slice of the text is exactly the line-feed character iff it is the single byte 0x0A (a proved fact about subrange)
+pub broadcast proof fn lemma_slice_lf(x: StrSlice)
+    requires 0 <= x.a() <= x.b() <= x.src().bytes().len()
+    ensures (#[trigger] x.view() =~= seq![0x0Au8]) <==> (x.b() == x.a() + 1 && x.src().bytes()[x.a()] == 0x0Au8)
+{
+    let sub = x.src().bytes().subrange(x.a(), x.b());
+    assert(sub.len() == x.b() - x.a());
+    if sub =~= seq![0x0Au8] { assert(sub[0] == 0x0Au8); }
+    if x.b() == x.a() + 1 && x.src().bytes()[x.a()] == 0x0Au8 { assert(sub[0] == 0x0Au8); assert(sub =~= seq![0x0Au8]); }
+}
+
 pub open spec fn ascii_alnum(b: u8) -> bool { (0x30 <= b <= 0x39) || (0x41 <= b <= 0x5a) || (0x61 <= b <= 0x7a) || b == 0x5f }
 pub open spec fn all_ascii(s: SrcText, a: int, b: int) -> bool { forall|k: int| a <= k < b ==> #[trigger] s.bytes()[k] < 0x80 }
 // a run of ASCII bytes starting at a boundary consists of one-byte characters: every position is a boundary
@@ -232,6 +243,9 @@ impl Scanner {
     //@fn file=yarel/src/scanner.rs path=Scanner::get_next_char_boundary ret=r
     //@  requires start <= self.source.blen()
     //@  ensures char_end(self.source, start as int, r as int)
+    //@  ensures (start < self.source.blen() && self.source.is_cb(start as int)) ==> nl(self.source, r as int) == nl(self.source, start as int) + (if lf_at(self.source, start as int) { 1int } else { 0int }) && (lf_at(self.source, start as int) ==> r == start + 1)
+    //@  before_stmt "return pos;" proof { if start < self.source.blen() && self.source.is_cb(start as int) { lemma_nl_char(self.source, start as int, pos as int); } }
+    //@  at body.tail proof { if start < self.source.blen() && self.source.is_cb(start as int) { lemma_nl_char(self.source, start as int, self.source.blen() as int); } }
     //@  at body.start broadcast use axiom_cb_ends; broadcast use axiom_bytes_len; proof { assert(self.source.bytes().len() == self.source.blen()); }
     //@  loop 0 iter it
     //@  loop 0 invariant it.snapshot.start == start + 1, it.snapshot.end == self.source.blen()
@@ -251,7 +265,7 @@ impl Scanner {
     //@  at body.start broadcast use axiom_cb_ends;
     //@  ensures lf_at(old(self).source, old(self).current as int) <==> (final(self).current == old(self).current + 1 && old(self).source.bytes()[old(self).current as int] == 0x0Au8)
     //@  ensures @advance_hands_out_a_line_feed_exactly_at_a_line_feed lf_at(old(self).source, old(self).current as int) <==> r@ =~= seq![0x0Au8]
-    //@  at body.tail proof { broadcast use axiom_bytes_len; if old(self).current < old(self).source.blen() { lemma_nl_char(old(self).source, old(self).current as int, self.current as int); let sub = old(self).source.bytes().subrange(old(self).current as int, self.current as int); assert(sub.len() == self.current - old(self).current); if sub =~= seq![0x0Au8] { assert(sub[0] == 0x0Au8); } } }
+    //@  at body.start broadcast use axiom_bytes_len; broadcast use lemma_slice_lf;
     //@end
     //@fn file=yarel/src/scanner.rs path=Scanner::peek ret=r
     //@  rewrite R8
@@ -262,7 +276,7 @@ impl Scanner {
     //@  ensures lf_at(self.source, self.current as int) <==> (r.b() == self.current + 1 && self.current < self.source.blen() && self.source.bytes()[self.current as int] == 0x0Au8)
     //@  at body.start broadcast use axiom_cb_ends;
     //@  ensures @peek_sees_a_line_feed_exactly_at_a_line_feed lf_at(self.source, self.current as int) <==> r@ =~= seq![0x0Au8]
-    //@  at body.tail proof { if self.current < self.source.blen() { lemma_nl_char(self.source, self.current as int, slice_end as int); broadcast use axiom_bytes_len; assert(self.source.bytes().subrange(self.current as int, slice_end as int).len() == slice_end - self.current); if self.source.bytes().subrange(self.current as int, slice_end as int) =~= seq![0x0Au8] { assert(self.source.bytes().subrange(self.current as int, slice_end as int)[0] == 0x0Au8); } } else { broadcast use axiom_bytes_len; } }
+    //@  at body.start broadcast use axiom_bytes_len; broadcast use lemma_slice_lf;
     //@end
     //@fn file=yarel/src/scanner.rs path=Scanner::peek_next ret=r
     //@  rewrite R8
@@ -285,7 +299,6 @@ impl Scanner {
     //@  ensures !r ==> final(self).current == old(self).current
     //@  ensures @matching_a_character_that_is_no_line_feed_keeps_the_line_count (old(self).lines_ok() && expected.bytes().len() >= 1 && expected.bytes()[0] != 0x0Au8) ==> final(self).lines_ok()
     //@  at body.start broadcast use axiom_cb_ends; broadcast use axiom_bytes_len;
-    //@  before_stmt "self.current = next;" proof { lemma_nl_char(self.source, self.current as int, next as int); let sub = self.source.bytes().subrange(self.current as int, next as int); assert(sub.len() == next - self.current); assert(sub[0] == self.source.bytes()[self.current as int]); }
     //@end
 
     //@fn file=yarel/src/scanner.rs path=Scanner::make_token ret=r
